@@ -40,7 +40,8 @@ def make_potential(case, gpts=None):
         kw["sampling"] = tuple(case["sampling0"])
     atoms = make_atoms(case)
     if case.get("phonons"):  # frozen-phonon ensemble (conformance only): eager builds deep-copy the integrator per block
-        atoms = abtem.FrozenPhonons(atoms, num_configs=len(case["phonons"]), sigmas=0.05, seed=tuple(case["phonons"]))
+        atoms = abtem.FrozenPhonons(atoms, num_configs=len(case["phonons"]), sigmas=0.05, seed=tuple(case["phonons"]),
+                                    directions=case.get("phonon_dirs", "xyz"))
     return abtem.Potential(atoms, **kw)
 
 
@@ -127,7 +128,11 @@ def impl_trace(case):
         for op in case["ops"]:
             if op[0] == "build":
                 del trace[:]
-                toks.append("c" if op[1] == "lazy" else "b")
+                k = len(case["phonons"]) if case.get("phonons") else None
+                # plain atoms: eager runs on the object (`b`), lazy on one deep copy (`c`); ensembles of k configurations: every
+                # block works on its own deep copy, eagerly (generate_blocks copies per block) and lazily (the task's one-member
+                # potential runs the eager ensemble path again) alike (`e:k`)
+                toks.append(f"e:{k}" if k else ("c" if op[1] == "lazy" else "b"))
                 try:
                     pot.build(lazy=op[1] == "lazy").compute(progress_bar=False, scheduler="synchronous")
                     builds.append(",".join(f"{t}:{'M' if m else 'H'}" for t, m in trace) or "_")
@@ -191,6 +196,9 @@ class C11(Property):
         lines, checks = [], []
         for i in range(ctx.n(60, 600)):
             c = gen_case(ctx, projection="finite" if i % 3 == 0 else "infinite")
+            if i % 4 == 1:  # frozen-phonon ensembles (displacements in the plane, so every configuration asks for the same species)
+                c["phonons"] = [ctx.rng.randint(0, 10 ** 6) for _ in range(ctx.rng.randint(1, 3))]
+                c["phonon_dirs"] = "xy"
             reqs = requests_of(c)
             toks, got = impl_trace(c)
             v = self.variant[c["projection"]]
@@ -200,7 +208,7 @@ class C11(Property):
             nontrivial = any(k == "build" for k in kinds) and any(
                 kinds[j] != "build" and "build" in kinds[:j] and "build" in kinds[j + 1:] for j in range(len(kinds)))
             ctx.case(c, nontrivial=nontrivial)
-            ctx.count(f"{c['projection']}:{'regrid-between-builds' if nontrivial else 'plain'}")
+            ctx.count(f"{c['projection']}:{'regrid-between-builds' if nontrivial else 'plain'}:{'phonons' if c.get('phonons') else 'atoms'}")
             ctx.traces += 1
         outs = drv.query(lines)
         for (c, got), model in zip(checks, outs):
@@ -262,6 +270,10 @@ class C11(Property):
         [["build", "eager"], ["sampling", [0.5, 0.25]], ["build", "eager"]],
         [["build", "eager"], ["sampling", [0.25, 0.5]], ["build", "lazy"]],
         [["build", "lazy"], ["gpts", [16, 8]], ["build", "eager"], ["gpts", [8, 16]], ["build", "eager"]],
+        [["build", "eager"], ["gpts", [16, 16]], ["build", "eager"], ["gpts", [8, 8]], ["build", "eager"]],   # refine, coarsen
+        [["build", "eager"], ["gpts", [16, 16]], ["build", "lazy"], ["gpts", [8, 8]], ["build", "lazy"]],
+        [["gpts", [16, 16]], ["build", "eager"], ["gpts", [10, 10]], ["build", "eager"], ["gpts", [12, 12]], ["build", "eager"]],  # coarsen, refine
+        [["build", "eager"], ["sampling", [0.25, 0.25]], ["simulate"], ["sampling", [0.5, 0.5]], ["simulate"]],
     ]
 
     def conformance(self, ctx: Ctx):
@@ -271,6 +283,8 @@ class C11(Property):
                 c.pop("sampling0", None)
                 c["gpts0"] = [8, 8]
                 c["ops"] = [list(o) for o in ops]
+                if len(ops) % 2 == 0 and proj == "finite":
+                    c["phonons"] = [ctx.rng.randint(0, 10 ** 6) for _ in range(2)]
                 self.oracle(ctx, c)
                 ctx.case(c)
                 ctx.count(f"conf:{proj}:directed")
